@@ -1,4 +1,5 @@
 import DVP.Lemmas.Events
+import DVP.Lemmas.Record
 /-!
 # C08 — no event crossing is missed
 
@@ -13,10 +14,14 @@ crossings of a plain oscillator were dropped); since the repair in `/repo` it is
 whatever the scale of the function).  The completeness of the whole chain is evaluated on the
 implementation (`harness/p_c08.py`: sign of `g` at consecutive recorded samples vs reported events, 12
 decades of scale, both directions, dense output on/off, 1–6 simultaneous events, crossings on step
-boundaries).
+boundaries).  The last link — the book-keeping in `integrate` that drops roots it takes for duplicates — is
+`located_events_all_recorded`: starting from the empty book, after any number of steps every root that was
+reported inside its step has an event OF THE SAME FUNCTION recorded within the duplicate tolerance, however
+many functions share the instant.
 -/
 namespace DVP.C08
 open DV DV.Events DVP.Events
+open DVP.Record (bookAfter emptyBook)
 
 /-- a strict sign change across the located root is classified as an upward / downward crossing —
 whatever the scale of the event function, only the signs of the samples matter -/
@@ -66,5 +71,79 @@ theorem nonterminal_events_all_reported (sgn : ℚ) (probes : List (Probe ℚ)) 
     have hm : y.2 ∈ probes := List.mem_of_getElem? this
     rw [hnt y.2 hm] at hyt
     exact absurd hyt (by simp)
+
+private theorem bookAfter_inv (dupTol : ℚ) (steps : List (ℚ × ℚ × List (Nat × Probe ℚ))) : ∀ (b : Book ℚ) (n : Nat),
+    DVP.Record.BookOK b → b.last.length = n → (∀ st ∈ steps, ∀ x ∈ st.2.2, x.1 < n) →
+    DVP.Record.BookOK (bookAfter dupTol b steps) ∧ (bookAfter dupTol b steps).last.length = n ∧
+      ∀ e ∈ b.events, e ∈ (bookAfter dupTol b steps).events := by
+  induction steps with
+  | nil => intro b n hb hn _; exact ⟨hb, hn, fun e he => he⟩
+  | cons st rest ih =>
+    intro b n hb hn hidx
+    have hst : ∀ x ∈ st.2.2, x.1 < b.last.length := by
+      intro x hx; rw [hn]; exact hidx st List.mem_cons_self x hx
+    have h1 : DVP.Record.BookOK (record st.1 st.2.1 dupTol b st.2.2) := by
+      rw [DVP.Record.record_eq_foldl]; exact DVP.Record.foldl_ok _ _ _ _ b hb hst
+    have h2 : (record st.1 st.2.1 dupTol b st.2.2).last.length = n := by
+      rw [DVP.Record.record_eq_foldl, ← hn]
+      clear hst h1 hidx hb hn
+      generalize st.2.2 = l
+      induction l generalizing b with
+      | nil => rfl
+      | cons y ys ihl => simp only [List.foldl_cons]; rw [ihl, DVP.Record.recStep_length]
+    obtain ⟨r1, r2, r3⟩ := ih (record st.1 st.2.1 dupTol b st.2.2) n h1 h2 (fun s hs => hidx s (List.mem_cons_of_mem _ hs))
+    refine ⟨r1, r2, fun e he => r3 e ?_⟩
+    rw [DVP.Record.record_eq_foldl]
+    exact DVP.Record.foldl_mono _ _ _ _ b e he
+
+/-- **No located crossing is lost by the book-keeping.**  Over any sequence of steps of one `integrate` call
+monitoring `n` functions, every event that `handle_events` reported with its root inside its step has, at the
+end, a recorded event of the same function at most `dupTol` away — a root is only ever dropped as the duplicate
+of an event of ITS OWN function, never because another function was recorded at that instant. -/
+theorem located_events_all_recorded (dupTol : ℚ) (hd : 0 ≤ dupTol) (n : Nat) (steps : List (ℚ × ℚ × List (Nat × Probe ℚ)))
+    (hidx : ∀ st ∈ steps, ∀ x ∈ st.2.2, x.1 < n)
+    (st : ℚ × ℚ × List (Nat × Probe ℚ)) (hst : st ∈ steps) (x : Nat × Probe ℚ) (hx : x ∈ st.2.2)
+    (hin : min st.1 st.2.1 ≤ x.2.root ∧ x.2.root ≤ max st.1 st.2.1) :
+    ∃ t, (x.1, t) ∈ (bookAfter dupTol (emptyBook n) steps).events ∧ |x.2.root - t| ≤ dupTol := by
+  have h0 : DVP.Record.BookOK (emptyBook n) := by
+    intro i tl h
+    simp [emptyBook, List.getD_eq_getElem?_getD, List.getElem?_replicate] at h
+    split at h <;> simp at h
+  have hl0 : (emptyBook n).last.length = n := by simp [emptyBook]
+  have hinside : DVP.Record.inside st.1 st.2.1 x.2.root = true := by
+    unfold DVP.Record.inside
+    by_cases hle : st.1 ≤ st.2.1
+    · rw [if_pos hle]; rw [min_eq_left hle, max_eq_right hle] at hin; simp [hin.1, hin.2]
+    · have hle' : st.2.1 ≤ st.1 := le_of_lt (not_le.mp hle)
+      rw [if_neg hle]; rw [min_eq_right hle', max_eq_left hle'] at hin; simp [hin.1, hin.2]
+  -- split the run at the step in question
+  obtain ⟨pre, post, rfl⟩ := List.append_of_mem hst
+  have hpre := bookAfter_inv dupTol pre (emptyBook n) n h0 hl0 (fun s hs => hidx s (List.mem_append_left _ hs))
+  have hfold : bookAfter dupTol (emptyBook n) (pre ++ st :: post) =
+      bookAfter dupTol (record st.1 st.2.1 dupTol (bookAfter dupTol (emptyBook n) pre) st.2.2) post := by
+    simp [bookAfter, List.foldl_append]
+  rw [hfold]
+  set b1 := bookAfter dupTol (emptyBook n) pre with hb1
+  have hidx_st : ∀ y ∈ st.2.2, y.1 < b1.last.length := by
+    intro y hy; rw [hpre.2.1]; exact hidx st (List.mem_append_right _ List.mem_cons_self) y hy
+  obtain ⟨t, ht, htd⟩ := DVP.Record.foldl_covers st.1 st.2.1 dupTol hd st.2.2 b1 hpre.1 hidx_st x hx hinside
+  have hb2 : DVP.Record.BookOK (record st.1 st.2.1 dupTol b1 st.2.2) := by
+    rw [DVP.Record.record_eq_foldl]; exact DVP.Record.foldl_ok _ _ _ _ b1 hpre.1 hidx_st
+  have hl2 : (record st.1 st.2.1 dupTol b1 st.2.2).last.length = n := by
+    have := (bookAfter_inv dupTol [st] b1 n hpre.1 hpre.2.1 (by
+      intro s hs y hy
+      rw [List.mem_singleton.mp hs] at hy
+      exact hidx st (List.mem_append_right _ List.mem_cons_self) y hy)).2.1
+    simpa [bookAfter] using this
+  have hpost := bookAfter_inv dupTol post _ n hb2 hl2 (fun s hs => hidx s (List.mem_append_right _ (List.mem_cons_of_mem _ hs)))
+  refine ⟨t, hpost.2.2 _ ?_, htd⟩
+  rw [DVP.Record.record_eq_foldl]
+  exact ht
+
+/-- non-vacuity: two functions with the same roots in two consecutive steps — both are recorded both times -/
+example :
+    let p : ℚ → Probe ℚ := fun r => { root := r, success := true, gm := -1, gc := 0, gp := 1, fields := [], direction := 0, terminal := false }
+    (bookAfter (1/1000) (emptyBook 2) [(0, 1, [(0, p (1/2)), (1, p (1/2))]), (1, 2, [(0, p (3/2)), (1, p (3/2))])]).events =
+      [(0, 1/2), (1, 1/2), (0, 3/2), (1, 3/2)] := by decide +kernel
 
 end DVP.C08
